@@ -518,7 +518,7 @@ Proof.
     + (* a prefixed function name is never resolved *)
       rewrite s_primary_function_prefixed.
       assert (Hres : forall k, match resolve_fn ns (QPrefixed pf lc) k with Ok _ => False | _ => True end).
-      { intros k. unfold resolve_fn, expanded_name. destruct (ns_lookup ns (Some pf)); cbn [bind]; exact I. }
+      { intros k. unfold resolve_fn, fn_key, expanded_name. destruct (ns_lookup ns (Some pf)); cbn [bind]; exact I. }
       specialize (Hres (expr_list_len args)). destruct (resolve_fn ns (QPrefixed pf lc) (expr_list_len args)); [destruct Hres|reflexivity|reflexivity|reflexivity].
     + cbn [sup_primary] in Hsup. apply andb_split in Hsup. destruct Hsup as [Hsup S3]. apply andb_split in Hsup. destruct Hsup as [S1 S2].
       apply negb_true_iff in S1. rewrite s_primary_function.
